@@ -949,7 +949,26 @@ class Envelope:
             t_a=delay, omega_a=(C0 / n) / other.wavelength
         )
         integrand = lambda x: np.conj(f1(x)) * f2(x)
-        result, _ = quad(integrand, -np.inf, np.inf)
+
+        # The profiles vanish far away from their centres. Adaptive quadrature
+        # over the whole real line does not find a narrow pulse (it returns 0
+        # for femtosecond pulses), so integrate around the centres if known
+        centres, widths = [], []
+        for profile, t_a in ((self.temporal_profile, 0), (other.temporal_profile, delay)):
+            if "mu" in profile.params and "sigma" in profile.params:
+                centres.append(profile.params["mu"] + t_a)
+                widths.append(profile.params["sigma"])
+        if len(centres) == 2:
+            span = 12 * max(widths)
+            result, _ = quad(
+                integrand,
+                min(centres) - span,
+                max(centres) + span,
+                points=sorted(set(centres)),
+                limit=200,
+            )
+        else:
+            result, _ = quad(integrand, -np.inf, np.inf)
 
         return result
 
